@@ -645,6 +645,10 @@ func (s *Store) GetFunctionTypeID(t *FunctionType) (FunctionTypeID, error) {
 	if !ok {
 		s.mux.Lock()
 		defer s.mux.Unlock()
+		if s.typeIDs == nil {
+			// CloseWithExitCode was called, possibly while the caller was compiling.
+			return 0, errors.New("already closed")
+		}
 		// Check again in case another goroutine has already added the type.
 		if id, ok = s.typeIDs[key]; ok {
 			return id, nil
